@@ -49,6 +49,23 @@ struct ExprSys {
                     { S a = S::from_validated(vi.data(), vi.size()); S m = b; (a = std::move(m)) = c; chk("(a = std::move(b)) = c", &a, a, bytes(c)); }
                     { S a = S::from_validated(vi.data(), vi.size()); (a += b) += c; chk("(a += b) += c", &a, a, vi + vj + bytes(c)); }
                     { S a = S::from_validated(vi.data(), vi.size()); (a = b).clear(); chk("(a = b).clear()", &a, a, ""); }
+                    // arguments handed over as non-const lvalues are sources, not sinks: they keep their value
+                    {
+                        auto keeps = [&](const char *what, const S &a, const ST::char_buffer &arg) {
+                            ++n_checks;
+                            if (std::string(arg.data(), arg.size()) != vj)
+                                f.push_back(hx::Fail{strf("c04:%s:lvalue-argument-changed", what), strf("after %s the argument holds %s", what, vf::vis(std::string(arg.data(), arg.size())).c_str())});
+                            else if (bytes(a) != vj) f.push_back(hx::Fail{strf("c04:%s:target-wrong-value", what), strf("after %s the string holds %s", what, vf::vis(bytes(a)).c_str())});
+                        };
+                        { S a = S::from_validated(vi.data(), vi.size()); ST::char_buffer buf(vj.data(), vj.size()); a.set_validated(buf); keeps("set_validated(char_buffer lvalue)", a, buf); }
+                        { S a = S::from_validated(vi.data(), vi.size()); ST::char_buffer buf(vj.data(), vj.size()); a.set(buf); keeps("set(char_buffer lvalue)", a, buf); }
+                        { S a = S::from_validated(vi.data(), vi.size()); ST::char_buffer buf(vj.data(), vj.size()); a = buf; keeps("= char_buffer lvalue", a, buf); }
+                        { ST::char_buffer buf(vj.data(), vj.size()); S a = S::from_validated(buf); keeps("from_validated(char_buffer lvalue)", a, buf); }
+                        { ST::char_buffer buf(vj.data(), vj.size()); S a(buf); keeps("string(char_buffer lvalue)", a, buf); }
+                        { S a = S::from_validated(vi.data(), vi.size()); S src = S::from_validated(vj.data(), vj.size()); a.set(src); keeps("set(string lvalue)", a, src.m_buffer); }
+                        { ST::char_buffer buf(vj.data(), vj.size()); ST::string_stream ss; ss << S::from_validated(buf); ++n_checks;
+                          if (std::string(buf.data(), buf.size()) != vj) f.push_back(hx::Fail{"c04:from_validated(lvalue) in an expression:lvalue-argument-changed", "buffer lost its value"}); }
+                    }
                 });
                 if (!oc.ok()) f.push_back(hx::Fail{strf("c04:assignment-results:%s", vf::outkind_name(oc.kind)), oc.str()});
             }
